@@ -122,6 +122,9 @@ Verdict(o) ==
   LET f == CASE o.kind = "round" -> RoundClauses(o) [] o.kind = "adj" -> AdjClauses(o) [] o.kind = "int" -> IntClauses(o)
              [] o.kind = "qm" -> (IF o.out.t = "arr" THEN QmClauses(o) ELSE <<"formula_failed">>)
              [] o.kind = "fact" -> (IF o.out.t = "arr" THEN FactClauses(o) ELSE <<"formula_failed">>)
+             [] o.kind = "factrel" ->      \* n!! = n (n-2)!! and m! = m (m-1)!, for arguments in range (the guard against runaway work is above them)
+                  (IF o.out.t # "arr" THEN <<"formula_failed">>
+                   ELSE Cl("factorial_recurrence", \A i \in 1..4 : o.out.a[i].t = "bool" /\ o.out.a[i].b))
              [] o.kind = "factfrac" ->     \* a negative argument, whole or not, has no factorial: an error, never a value
                   (IF o.in.x.n < 0
                    THEN Cl("negative_factorial_must_be_an_error", o.out.t = "err" \/ (o.out.t = "arr" /\ ErrV(o.out.a[1]) /\ ErrV(o.out.a[2])))
